@@ -181,7 +181,11 @@ def string_summaries(I, summ):
         """any function of the library that is handed a word / separator token: it appends that string to the phrase buffer among its arguments"""
         tag = [a for a in args if isinstance(a, Tag)][0]
         ptrs = [a for a in args if isinstance(a, Ptr)]
-        st.trace.append(('write_str', repr(ptrs[0]) if ptrs else '?', tag, inst.loc))
+        def ident(p_):
+            # identity of the output cursor: the cursor variable, or (cursor passed / returned by value) the buffer it points into
+            if p_.obj in st.mem.objs and len(st.mem.objs[p_.obj]) == 8: return repr(p_)
+            return 'Ptr(%s+*)' % p_.obj
+        st.trace.append(('write_str', ident(ptrs[0]) if ptrs else '?', tag, inst.loc))
         for p_ in ptrs:
             if p_.obj in st.mem.objs and p_.obj.startswith('a:'):
                 cur = None
@@ -193,6 +197,17 @@ def string_summaries(I, summ):
                         if cur.obj in st.mem.objs: _smear(I, st, Ptr(cur.obj, st.forced.get(('write_str-base', cur.obj), 0)))
                 else:
                     _smear(I, st, Ptr(p_.obj, p_.coff() or 0))
+        ty = inst.d.get('ty', '')
+        if ty.startswith('{') or ty.startswith('%'):
+            # the cursor is an aggregate returned by value: every pointer member points somewhere into the same buffer
+            if ty.startswith('%'):
+                stt = I.P.structs.get(ty[1:]); ftys = [fl['ty'] for fl in stt['fields']] if stt else []
+            else:
+                ftys = [x.strip() for x in ty.strip('{} ').split(',')]
+            bufs = [p_ for p_ in ptrs if p_.obj in st.mem.objs]
+            if ftys and all(t_.endswith('*') for t_ in ftys) and bufs:
+                return Agg({(k,): Ptr(bufs[0].obj, BV([T(0)] * 64)) for k in range(len(ftys))})
+            raise Unmodelled('phrase writer returning %s at %s' % (ty, inst.loc))
         if inst.d['bits']:
             I._npos = getattr(I, '_npos', 0) + 1
             r = I.V.bv('pos%d' % I._npos, inst.d['bits'])
